@@ -40,6 +40,24 @@ fn gen_set(r: &mut Rng) -> Tok {
             }
         }
     }
+    // ranges whose end points are punctuation, '-' itself included (`[--9]`,
+    // `[+--]`, `[!-/]`): the characters strictly inside belong to the set
+    if r.chance(1, 6) {
+        let (a, b) = *r.pick(&[('-', '9'), ('-', '.'), ('-', '/'), ('+', '-'), (',', '-'), ('+', '.'), ('!', '/'), (' ', '~'), ('-', 'z'), ('#', '-'), ('-', '-'), ('.', '9'), ('^', 'a'), ('Z', 'a')]);
+        if r.chance(1, 2) {
+            items.insert(0, (a, b));
+        } else {
+            items.push((a, b));
+        }
+    }
+    // '-' as the first or the last member is a literal (`[-a]`, `[a-]`)
+    if r.chance(1, 10) {
+        if r.chance(1, 2) {
+            items.insert(0, ('-', '-'));
+        } else {
+            items.push(('-', '-'));
+        }
+    }
     // ']' as the first member of a set is a literal (`[]a]`, `[!]a]`)
     if r.chance(1, 8) {
         items.insert(0, (']', ']'));
@@ -441,6 +459,8 @@ pub fn run(cx: &mut Cx) {
     }
     cx.ev.require("glob/confusable/false");
     cx.ev.require("glob/repeat-head/false");
+    cx.ev.require("glob/set-sweep/true");
+    cx.ev.require("glob/set-sweep/false");
     if matches!(cx.tier, Tier::Quick | Tier::Thorough) {
         cx.ev.require("workload/hash-collisions");
     }
@@ -483,6 +503,19 @@ pub fn run(cx: &mut Cx) {
                 }
             }
             names.push((nm, "lang"));
+        }
+        // one set position swept over every printable ASCII character (and two
+        // others): membership is decided per character, so a set read by a
+        // second, hand-written parser shows at exactly the characters it
+        // classifies differently
+        if r.chance(1, 6) {
+            if let Some(si) = toks.iter().position(|t| matches!(t, Tok::Set(..))) {
+                let pre = sample(&mut r, &toks[..si]);
+                let post = sample(&mut r, &toks[si + 1..]);
+                for c in (0x20u8..0x7f).map(|b| b as char).chain(['é', '€']) {
+                    names.push((format!("{pre}{c}{post}"), "set-sweep"));
+                }
+            }
         }
         // the pattern's own text as a name: matches a plain pattern, and a glob
         // only if the text happens to be in its own language
